@@ -1095,3 +1095,10 @@ C20_NATIVES = [n.name for n in _C20]
 C21_NATIVES = [n.name for n in _C21]
 C22_NATIVES = [n.name for n in _C22]
 C26_NATIVES = [n.name for n in _C26]
+
+
+# ---- find_prime_root / _pfield depend on the randomised primality test: a REPLAY evaluates the same input up to 50 times (see contracts/gmpy.py)
+from contracts.gmpy import _RepeatOnReplay as _Rep
+for _nm, _nv in list(NATIVE.items()):
+    if _nm.startswith(('fpr_', 'pfield_')) and type(_nv).__name__ == 'Native':
+        _nv.__class__ = _Rep
